@@ -30,7 +30,7 @@ import re
 from core import *
 from dataflow import *
 from cfgq import *
-from parsers import built_messages
+from parsers import built_messages, short
 
 LEVEL = 'other'
 EXPLANATION = __doc__
@@ -162,7 +162,8 @@ def env_lookup_sites(fs, body):
     out = []
     for c in body.calls():
         if any(re.match(r'^std::env::var(_os)?$', n) for n in c.names):
-            out.append((c.bb, provenance(body, c.args[0], c.bb, 'term', through=ITER)))
+            # `for name in self.named.env.iter() { var_os(name) .. }`: the name is an element of what the loop walks
+            out.append((c.bb, provenance(body, c.args[0], c.bb, 'term', through=ITER + [r'Iterator>?::next$'])))
     for (bb, fn, full) in fn_refs(body):
         if re.match(r'^std::env::var(_os)?$', fn):
             c = body.call_at(bb)
